@@ -16,7 +16,7 @@ from prosemirror.model import Fragment
 
 from .. import core, gen, schemas
 from ..core import outcome
-from .c07 import all_nodes
+from .c07 import all_nodes, built_answer
 
 
 def states_of(start):
@@ -100,19 +100,6 @@ def cf_partial_contents(rng, docs, t):
         kids = [c for c in n.content.content if rng.random() < 0.6]
         out.append(Fragment.from_(kids))
     return out
-
-
-def built_answer(info, st, node):
-    """the real outcome of create_and_fill / create_checked in the driver's answer format (`eBuilt`)"""
-    if st == "ok":
-        if node is None:
-            return {"ok": {"nothing": True}}
-        if node.type.is_text:
-            return {"ok": {"textType": True}}
-        return {"ok": {"node": info.node(node)}}
-    if st == "internal" and node == "RecursionError":
-        return {"ok": {"outOfFuel": True}}
-    return {"err": st}
 
 
 def run(ctx):
